@@ -242,6 +242,25 @@ void execute_member_assignment(StatementExecutor *executor,
             }
         }
 
+        // 完全なベースパスを構築 (例: points[0])
+        std::function<std::string(const ASTNode *)> build_base_path =
+            [&](const ASTNode *base) -> std::string {
+            if (!base)
+                return "";
+            if (base->node_type == ASTNodeType::AST_VARIABLE ||
+                base->node_type == ASTNodeType::AST_IDENTIFIER) {
+                return base->name;
+            } else if (base->node_type == ASTNodeType::AST_ARRAY_REF) {
+                std::string left_path = build_base_path(base->left.get());
+                int64_t index = evaluate_index(base->array_index.get());
+                return left_path + "[" + std::to_string(index) + "]";
+            } else if (base->node_type == ASTNodeType::AST_MEMBER_ACCESS) {
+                std::string left_path = build_base_path(base->left.get());
+                return left_path + "." + base->name;
+            }
+            return "";
+        };
+
         // 親のstruct_membersに直接代入（参照経由）
         auto &member_ref = members[final_member];
 
@@ -252,6 +271,21 @@ void execute_member_assignment(StatementExecutor *executor,
         } else {
             TypedValue typed_value =
                 interpreter.evaluate_typed(node->right.get());
+            if (typed_value.is_struct() && typed_value.struct_data) {
+                // 構造体値の代入: oa[k].in = i1, obj.mid.in = i1
+                // obj.in = i1 と同じ assign_struct_member_struct で、メンバー
+                // 本体と個別変数（oa[k].in.a など）を再帰的に更新する
+                std::string struct_base_path =
+                    build_base_path(member_access->left.get());
+                if (!struct_base_path.empty()) {
+                    Variable struct_copy = *typed_value.struct_data;
+                    interpreter.assign_struct_member_struct(
+                        struct_base_path, final_member, struct_copy);
+                    members[final_member] = struct_copy;
+                    members[final_member].is_assigned = true;
+                    return;
+                }
+            }
             if (typed_value.is_floating()) {
                 member_ref.double_value = typed_value.as_double();
                 member_ref.type = typed_value.type.type_info;
@@ -276,25 +310,6 @@ void execute_member_assignment(StatementExecutor *executor,
         }
 
         // 個別変数システムとの同期
-        // 完全なベースパスを構築 (例: points[0])
-        std::function<std::string(const ASTNode *)> build_base_path =
-            [&](const ASTNode *base) -> std::string {
-            if (!base)
-                return "";
-            if (base->node_type == ASTNodeType::AST_VARIABLE ||
-                base->node_type == ASTNodeType::AST_IDENTIFIER) {
-                return base->name;
-            } else if (base->node_type == ASTNodeType::AST_ARRAY_REF) {
-                std::string left_path = build_base_path(base->left.get());
-                int64_t index = evaluate_index(base->array_index.get());
-                return left_path + "[" + std::to_string(index) + "]";
-            } else if (base->node_type == ASTNodeType::AST_MEMBER_ACCESS) {
-                std::string left_path = build_base_path(base->left.get());
-                return left_path + "." + base->name;
-            }
-            return "";
-        };
-
         std::string base_path = build_base_path(member_access->left.get());
         if (!base_path.empty()) {
             std::string full_member_path = base_path + "." + final_member;
